@@ -265,7 +265,8 @@ def impl_predicates(pid, op, impl):
         if "caller=changed" in impl:
             hits.append(("C12", "caller's header maps were modified"))
     if f and f[0] == "enc" and impl.startswith("ok") and "redec=ok" not in impl:
-        hits.append(("C08*", "encoder output refused by the corresponding decoder"))
+        # `!rt`: the generator built a value of the supported data model (binding even where the model is silent)
+        hits.append(("C08" if f[-1] == "!rt" else "C08*", "encoder output refused by the corresponding decoder"))
     if f and f[0] == "reenc" and f[3] in ("clear", "trunc"):
         # C09: after discarding the retained raw bytes the re-encoding is a canonical form:
         # it decodes, and decoding / re-encoding it again changes nothing
